@@ -782,6 +782,10 @@ def _get_line_start_charnos(source: str) -> Sequence[int]:
 
 def _get_charno(source: str, line_start_charnos: Sequence[int], lineno: int, col_offset: int) -> int:
     """Character number of an ast position. ast col_offsets are utf-8 byte offsets, not characters."""
+    if lineno > len(line_start_charnos):
+        # A position below the last line, where code is inserted at the end of the source
+        return len(source)
+
     line_start = line_start_charnos[lineno - 1]
     line_end = line_start_charnos[lineno] if lineno < len(line_start_charnos) else len(source)
     line = source[line_start:line_end]
